@@ -599,7 +599,7 @@ def main():
         for cex in st.cex:
             run.report('reindex:' + cex['name'], cex['name'] + ' fails: ' + json.dumps(jsonable(sx.model_dict(cex['model']))), {}, True)
         for L in (1, 2) + ((3,) if thorough else ()):
-            st = sx.explore(multilevel_harness(L, 3, pyf, kernels), timeout_ms=120000)
+            st = sx.explore(multilevel_harness(L, 3, pyf, kernels), timeout_ms=120000 if L < 3 else 600000)
             run.absorb(st, 'index-maps', bound={'fn': 'reindex_to/from_multilevel', 'L': L, 'dims': '1..3 symbolic'})
             for cex in st.cex:
                 run.report('multilevel:' + cex['name'], cex['name'] + ' fails: ' + json.dumps(jsonable(sx.model_dict(cex['model']))), {}, True)
